@@ -282,7 +282,14 @@ class Engine:
     def _no(self, it, node, what):
         it.unsupported(node, what)
 
-    def opaque_contains(self, it, cont, item, n): self._no(it, n, f'membership in {cont!r}')
+    def opaque_contains(self, it, cont, item, n):
+        if cont.tag == 'dir':
+            # `name in dir(type(self))`: uninterpreted predicate of the class and the name
+            f = z3.Function('InDir', sym.I, Val, z3.BoolSort())
+            tv = cont.payload
+            if isinstance(tv, OpaqueV) and tv.tag == 'typeof':
+                return f(it.heap.cls(sym.r_of(tv.payload.t)), it.sv(item, n).t)
+        self._no(it, n, f'membership in {cont!r}')
     def opaque_getitem(self, it, v, k, n): self._no(it, n, f'subscript of {v!r}')
     def opaque_setitem(self, it, v, k, x, n): self._no(it, n, f'item store on {v!r}')
     def opaque_iter(self, it, v, n, fr): self._no(it, n, f'iteration over {v!r}')
@@ -291,7 +298,41 @@ class Engine:
     def call_opaque(self, it, fv, a, kw, n, fr): self._no(it, n, f'call of {fv!r}')
     def construct_external(self, it, cv, a, kw, n, fr): self._no(it, n, f'construction of external class {cv.name}')
     def external_class_attr(self, it, cv, name, n): self._no(it, n, f'attribute {name} of external class {cv.name}')
-    def symbolic_dictcomp(self, it, n, spec, fr): self._no(it, n, 'dict comprehension over a symbolic collection')
+    def symbolic_dictcomp(self, it, n, spec, fr):
+        """{key(x): value(x) for x in <symbolic collection>} without filter: the result is a fresh ordered map described
+        element-wise (built-in semantics, trusted); distinctness of the computed keys is an obligation"""
+        from .interp_expr import Frame_child
+        g = n.generators[0]
+        if g.ifs:
+            self._no(it, n, 'filtered dict comprehension over a symbolic collection')
+        _, ln, elem, snap = spec
+        run = it.run
+        new = MapT.fresh(f'dc!{run.nfresh}')
+        run.nfresh += 1
+
+        def kv(i):
+            sub = Frame_child(fr)
+            it.assign(g.target, elem(i), sub)
+            run.no_fork += 1
+            try:
+                k = it.ev(n.key, sub)
+                v = it.ev(n.value, sub)
+            finally:
+                run.no_fork -= 1
+            return it.sv(k, n).t, it.store_val(v, n)
+        i, j = z3.Int('!dci'), z3.Int('!dcj')
+        ki, vi = kv(i)
+        kj, _ = kv(j)
+        kk = z3.Const('!dck', Val)
+        run.oblige(f'dictcomp-keys-distinct@{n.lineno}', z3.ForAll([i, j], z3.Implies(z3.And(0 <= i, i < j, j < ln), ki != kj)), kind='safety', lineno=n.lineno)
+        run.assume(new.len == ln)
+        run.assume(z3.ForAll([i], z3.Implies(z3.And(0 <= i, i < ln),
+                                             z3.And(z3.Select(new.keyat, i) == ki, z3.Select(new.pos, ki) == i, z3.Select(new.val, ki) == vi))))
+        run.assume(z3.ForAll([kk], z3.And(z3.Select(new.pos, kk) >= -1, z3.Select(new.pos, kk) < ln,
+                                          z3.Implies(z3.Select(new.pos, kk) >= 0, z3.Select(new.keyat, z3.Select(new.pos, kk)) == kk))))
+        r = run.alloc('dict')
+        it.heap.put_m(r, new)
+        return SV(sym.mk_ref(r), hint=frozenset(['dict']))
     def str_of_obj(self, it, v, n, fr): return SV(Val.str(it.run.fresh('strobj', z3.StringSort())))
     def yield_hook(self, it, fr, v, node): pass
 
@@ -346,6 +387,8 @@ class Engine:
             }[k]
             if cons is not None:
                 run.assume(cons)
+            if k in ('any', 'ref') and not result:
+                run.assume(z3.Implies(sym.is_ref(t), sym.r_of(t) > 0))      # arguments denote pre-state objects
             if k == 'ref' or (k == 'any' and result):
                 pass
             return SV(t)
@@ -354,6 +397,12 @@ class Engine:
                 r = run.fresh('r_' + name, sym.I)
                 if not p.kw.get('maybe_fresh'):
                     run.assume(r > 0)
+                else:
+                    # an object that existed when the call was made, or one the callee created (identities below -10^6,
+                    # strictly decreasing, hence distinct from everything allocated before or after)
+                    floor = getattr(run, 'floor', z3.IntVal(-1000000))
+                    run.assume(z3.Or(r > 0, z3.And(r < 0, r >= -run.nalloc), r < floor))
+                    run.floor = z3.If(r < floor, r, floor)
             else:
                 r = z3.IntVal(p.kw.get('ref') or refs())
             if p.kind == 'node':
@@ -439,7 +488,7 @@ class Engine:
             for nm, g, meta in _named3(c.requires(sc), 'pre'):
                 run.assume(g)
                 if meta and meta.get('static'):
-                    it.entry_static[nm] = meta['static']
+                    it.entry_static[nm] = meta
         # the pre-state may have been extended by the precondition (lazy arrays): re-snapshot
         it.pre_heap = run.heap.snapshot()
         if not run.feasible(z3.BoolVal(True)):
